@@ -83,6 +83,8 @@ struct Ser;
 struct SeqSer {
     items: Vec<V>,
     kind: SeqKind,
+    /// the element count announced up front (formats with length prefixes trust it)
+    declared: Option<usize>,
 }
 enum SeqKind {
     Seq,
@@ -94,6 +96,7 @@ struct StructSer {
     name: &'static str,
     fields: Vec<(&'static str, V)>,
     variant: Option<(u32, &'static str)>,
+    declared: usize,
 }
 struct MapSer {
     items: Vec<(V, V)>,
@@ -175,25 +178,25 @@ impl ser::Serializer for Ser {
         Ok(V::NewtypeVariant(name, idx, variant, Box::new(value.serialize(Ser)?)))
     }
     fn serialize_seq(self, len: Option<usize>) -> Result<SeqSer, Error> {
-        Ok(SeqSer { items: Vec::with_capacity(len.unwrap_or(0)), kind: SeqKind::Seq })
+        Ok(SeqSer { items: Vec::with_capacity(len.unwrap_or(0).min(4096)), kind: SeqKind::Seq, declared: len })
     }
     fn serialize_tuple(self, len: usize) -> Result<SeqSer, Error> {
-        Ok(SeqSer { items: Vec::with_capacity(len), kind: SeqKind::Tuple })
+        Ok(SeqSer { items: Vec::with_capacity(len), kind: SeqKind::Tuple, declared: Some(len) })
     }
     fn serialize_tuple_struct(self, name: &'static str, len: usize) -> Result<SeqSer, Error> {
-        Ok(SeqSer { items: Vec::with_capacity(len), kind: SeqKind::TupleStruct(name) })
+        Ok(SeqSer { items: Vec::with_capacity(len), kind: SeqKind::TupleStruct(name), declared: Some(len) })
     }
     fn serialize_tuple_variant(self, name: &'static str, idx: u32, variant: &'static str, len: usize) -> Result<SeqSer, Error> {
-        Ok(SeqSer { items: Vec::with_capacity(len), kind: SeqKind::TupleVariant(name, idx, variant) })
+        Ok(SeqSer { items: Vec::with_capacity(len), kind: SeqKind::TupleVariant(name, idx, variant), declared: Some(len) })
     }
     fn serialize_map(self, _len: Option<usize>) -> Result<MapSer, Error> {
         Ok(MapSer { items: Vec::new(), key: None })
     }
     fn serialize_struct(self, name: &'static str, len: usize) -> Result<StructSer, Error> {
-        Ok(StructSer { name, fields: Vec::with_capacity(len), variant: None })
+        Ok(StructSer { name, fields: Vec::with_capacity(len), variant: None, declared: len })
     }
     fn serialize_struct_variant(self, name: &'static str, idx: u32, variant: &'static str, len: usize) -> Result<StructSer, Error> {
-        Ok(StructSer { name, fields: Vec::with_capacity(len), variant: Some((idx, variant)) })
+        Ok(StructSer { name, fields: Vec::with_capacity(len), variant: Some((idx, variant)), declared: len })
     }
     fn is_human_readable(&self) -> bool {
         true
@@ -201,13 +204,19 @@ impl ser::Serializer for Ser {
 }
 
 impl SeqSer {
-    fn finish(self) -> V {
-        match self.kind {
+    /// Like a length-prefixed format this one holds the serialiser to the count it announced.
+    fn finish(self) -> Result<V, Error> {
+        if let Some(d) = self.declared {
+            if d != self.items.len() {
+                return Err(Error(format!("sequence announced {} element(s) up front but {} were written", d, self.items.len())));
+            }
+        }
+        Ok(match self.kind {
             SeqKind::Seq => V::Seq(self.items),
             SeqKind::Tuple => V::Tuple(self.items),
             SeqKind::TupleStruct(n) => V::TupleStruct(n, self.items),
             SeqKind::TupleVariant(n, i, v) => V::TupleVariant(n, i, v, self.items),
-        }
+        })
     }
 }
 impl ser::SerializeSeq for SeqSer {
@@ -218,7 +227,7 @@ impl ser::SerializeSeq for SeqSer {
         Ok(())
     }
     fn end(self) -> Result<V, Error> {
-        Ok(self.finish())
+        self.finish()
     }
 }
 impl ser::SerializeTuple for SeqSer {
@@ -229,7 +238,7 @@ impl ser::SerializeTuple for SeqSer {
         Ok(())
     }
     fn end(self) -> Result<V, Error> {
-        Ok(self.finish())
+        self.finish()
     }
 }
 impl ser::SerializeTupleStruct for SeqSer {
@@ -240,7 +249,7 @@ impl ser::SerializeTupleStruct for SeqSer {
         Ok(())
     }
     fn end(self) -> Result<V, Error> {
-        Ok(self.finish())
+        self.finish()
     }
 }
 impl ser::SerializeTupleVariant for SeqSer {
@@ -251,7 +260,7 @@ impl ser::SerializeTupleVariant for SeqSer {
         Ok(())
     }
     fn end(self) -> Result<V, Error> {
-        Ok(self.finish())
+        self.finish()
     }
 }
 impl ser::SerializeMap for MapSer {
@@ -278,6 +287,9 @@ impl ser::SerializeStruct for StructSer {
         Ok(())
     }
     fn end(self) -> Result<V, Error> {
+        if self.declared != self.fields.len() {
+            return Err(Error(format!("struct {} announced {} field(s) but {} were written", self.name, self.declared, self.fields.len())));
+        }
         Ok(match self.variant {
             None => V::Struct(self.name, self.fields),
             Some((i, v)) => V::StructVariant(self.name, i, v, self.fields),
@@ -292,6 +304,9 @@ impl ser::SerializeStructVariant for StructSer {
         Ok(())
     }
     fn end(self) -> Result<V, Error> {
+        if self.declared != self.fields.len() {
+            return Err(Error(format!("struct {} announced {} field(s) but {} were written", self.name, self.declared, self.fields.len())));
+        }
         Ok(match self.variant {
             None => V::Struct(self.name, self.fields),
             Some((i, v)) => V::StructVariant(self.name, i, v, self.fields),
